@@ -250,8 +250,13 @@ func (fr *Frame) step(in ssa.Instruction) {
 	case *ssa.Call:
 		fr.regs[x] = fr.call(x)
 	case *ssa.TypeAssert:
-		fr.regs[x] = Top{Why: "type assertion"}
-		it.event("unmodelled", fr.fn, x.Pos(), "type assertion")
+		v := fr.get(x.X)
+		it.event("unmodelled", fr.fn, x.Pos(), "type assertion on %s", show(v))
+		if x.CommaOk {
+			fr.regs[x] = Tuple{v, Top{Why: "type assertion result"}}
+		} else {
+			fr.regs[x] = v
+		}
 	default:
 		it.abortf("unsupported instruction %T (%s) in %s", in, in, fr.fn)
 	}
